@@ -183,7 +183,8 @@ def generate(rng: random.Random, cfg: dict | None = None) -> dict:
                 pre.append(ma[0])
                 lines.append(L(pre, None, True))
             else:
-                pre.append(rng.choice(models))
+                custom = cfg.get("custom_models") or []
+                pre.append(rng.choice(custom) if custom and rng.random() < 0.3 else rng.choice(models))
                 params = gen_params(rng, defines)
                 lines.append(L(pre, params if params else None, True))
         lines.append(L(["Enddecay"]))
@@ -194,8 +195,8 @@ def generate(rng: random.Random, cfg: dict | None = None) -> dict:
         if m in mothers and rng.random() < 0.8:
             continue
         mothers.append(m)
-        decaying.append(m)
         stmts.append(gen_decay(m))
+        decaying.append(m)  # only earlier tables can be daughters: acyclic by construction (apart from name collisions)
 
     # --- copies
     copies = []
